@@ -34,6 +34,26 @@ def audited(fn_id):
     return None
 
 
+_CALLED = {}
+
+
+def compile_time_only(db, fid):
+    """a private free function that no function body calls (it can then only run during constant evaluation, where an overflow is a compile error)"""
+    if id(db) not in _CALLED:
+        called = set()
+        for f in db.fns.values():
+            for b in [f] + list(f.get('promoted') or []):
+                for bi, t, blk in mir.iter_calls(b):
+                    c = mir.callee(t)[0]
+                    if c:
+                        called.add(c)
+        _CALLED[id(db)] = called
+    f = db.fns.get(fid)
+    base = fid.split('::{closure#')[0]
+    fb = db.fns.get(base)
+    return fb is not None and 'Public' not in str(fb.get('vis')) and not fb.get('impl') and base not in _CALLED[id(db)]
+
+
 def collect(jobs):
     """worker: run spec jobs with the R-PROFILE collectors switched on"""
     execd = set()
@@ -282,6 +302,8 @@ def run(rep, tier):
             rep.ob('R-PROFILE', key, True, 'reached by the analysed cells, failure edge infeasible in all of them', site=s['site'])
         else:
             why = audited(s['fn'])
+            if why is None and compile_time_only(db, s['fn']):
+                why = 'private function without a caller in any function body: evaluated at compile time (const initialiser) or dead - no run-time profile dependence'
             n_audited += 1 if why else 0
             rep.ob('R-PROFILE-COVER', key, why is not None,
                    'profile-dependent site not reached by any analysed cell and not in the audited table' if not why else 'not decided here: %s' % why, site=s['site'])
